@@ -192,16 +192,29 @@ fn observe(
         obs.fail("to_writer", ctx("to_writer()", String::from_utf8_lossy(&v).to_string()));
       }
     }
-    5 => {
-      let _ = r.map(&MapOptions::new(true));
-    }
-    6 => {
-      let _ = r.map(&MapOptions::new(false));
-    }
-    7 => {
-      let mut h = std::collections::hash_map::DefaultHasher::new();
-      r.hash(&mut h);
-      let _ = h.finish();
+    // observers that do not return the text: only their side effects matter
+    // here; a panic of theirs is not a statement about source() (C17)
+    5 | 6 | 7 | 10 => {
+      let res = std::panic::catch_unwind(std::panic::AssertUnwindSafe(|| match kind {
+        5 => {
+          let _ = r.map(&MapOptions::new(true));
+        }
+        6 => {
+          let _ = r.map(&MapOptions::new(false));
+        }
+        7 => {
+          let mut h = std::collections::hash_map::DefaultHasher::new();
+          r.hash(&mut h);
+          let _ = h.finish();
+        }
+        _ => {
+          let _ = format!("{:?}", r);
+        }
+      }));
+      if res.is_err() {
+        let _ = crate::worker::take_panic();
+        obs.count("non_text_observer_panics", 1);
+      }
     }
     8 | 9 => {
       let rec = record(r, &MapOptions::new(kind == 8));
